@@ -50,8 +50,11 @@ MUT = [
      [(RW, '        cell.y = self.y\n        cell.x = x\n        return cell\n\n    def get_value', '        cell.y = self.y\n        return cell\n\n    def get_value')]),
     ('c08_traverse_live_rows', 'C08', True, 'traverse yields the live wrapper of unrepeated rows (the F13 repair removed)',
      [(TB, '                # copies are returned, also for unrepeated rows\n                yield row.clone', '                yield row')]),
-    ('c08_get_cells_not_completed', 'C08', True, 'get_cells(area) not completed on short rows (the F30 repair removed)',
-     [(TB, '        complete = bool(coord) and not cell_type and not style and not content', '        complete = False')]),
+    ('c08_get_cells_drops_last_cell', 'C08', True, 'get_cells drops the last cell of every row (a wrong count that is NOT the known finding F30)',
+     [(TB, '                lcells.append(row_cells)\n            return lcells', '                lcells.append(row_cells[:-1])\n            return lcells')]),
+    ('c08_get_cells_z_off_by_one', 'C08', True, 'get_cells(area): the right bound of the area is taken one too small',
+     [(TB, '            x, y, z, t = self._translate_table_coordinates(coord)\n        else:\n            x = y = z = t = None\n        if flat:',
+       '            x, y, z, t = self._translate_table_coordinates(coord)\n            if z:\n                z -= 1\n        else:\n            x = y = z = t = None\n        if flat:')]),
     ('c08_traverse_y_relative_to_start', 'C08', True, 'Table.traverse(start, end) numbers the rows it yields from the start of the range',
      [(TB, '            if y > end:\n                return\n            row.y = y\n            yield row', '            if y > end:\n                return\n            row.y = y - start\n            yield row')]),
     ('c08_get_column_no_x', 'C08', True, 'get_column without `column.x = x`',
